@@ -41,6 +41,20 @@ impl RegexCache {
     }
 }
 
+#[cfg(feature = "verif-hooks")]
+impl RegexCache {
+    pub(crate) fn verif_record(&self) {
+        if let Some(cache) = &self.cache {
+            let cache = cache.borrow();
+            crate::verif::record_regex_cache(
+                cache.cache_hits().unwrap_or(0),
+                cache.cache_misses().unwrap_or(0),
+                cache.cache_capacity().unwrap_or(0),
+            );
+        }
+    }
+}
+
 #[cfg(test)]
 mod tests {
     use super::*;
